@@ -125,6 +125,14 @@ fn header(args: &[&str]) -> String {
 }
 
 fn main() {
+    // vp-direct exit_on_error <grammar file> <destination>: the build-script helper as a build script calls it
+    let argv: Vec<String> = std::env::args().collect();
+    if argv.len() == 4 && argv[1] == "exit_on_error" {
+        use peginator_codegen::Compile;
+        Compile::file(&argv[2]).destination(&argv[3]).run_exit_on_error();
+        println!("RETURNED");
+        return;
+    }
     panic::set_hook(Box::new(|_| {}));
     let stdin = io::stdin();
     let stdout = io::stdout();
